@@ -112,6 +112,10 @@ def make (c):
             g = cand [int (r2.integers (0, len (cand)))]
             g ['n'] = 2
             g ['taper'] = [int (r2.integers (1, 4)), None, None]
+    # (tapers that do not fit their minimum: the program then segments the wire equally and writes one wire)
+    for g in geo:
+        if g ['k'] == 'w' and g ['n'] >= 2 and r2.random () < 0.07 and not spec.get ('fuzzy') and not g.get ('taper'):
+            g ['taper'] = [int (r2.integers (1, 4)), float (1.5 * np.linalg.norm (np.array (g ['p2']) - np.array (g ['p1'])) / g ['n']), None]
     for g in geo:
         if g ['k'] == 'w' and g ['n'] >= 3 and rng.random () < 0.2 and not spec.get ('fuzzy') and not g.get ('taper'):
             # minimum segment length of 8.5 radii keeps most tapered wires inside the thin-wire rules
@@ -238,6 +242,23 @@ def check (c):
         want_cmds = ['C'] + (['P'] if 'zen' in v else []) + (['N', 'N'] if 'near' in v else [])
         if r2 ['commands'] != want_cmds:
             bad ('prompts.api', 'commands', 'commands %s written for requests %s' % (r2 ['commands'], want_cmds))
+    # ---- one BASIC file per frequency from one object (a scripted sweep): after the frequency of the object has
+    # changed, the file is the one a fresh object at that frequency writes
+    f0 = m.f
+    try:
+        m.f = f0 * 1.27
+        ta = common.guarded (lambda: m.as_basic_input (ns, **kw), 'as_basic_input')
+        m2 = common.build_argv (gen.to_argv (dict (spec, f = f0 * 1.27)))
+        tb = common.guarded (lambda: m2.as_basic_input (ns, **kw), 'as_basic_input')
+        mon ['second-frequency'] = 1
+        if ta != tb:
+            la, lb = ta.split ('\n'), tb.split ('\n')
+            bad ('second-frequency', 'basic-after-frequency-change', 'object set from %.6g to %.6g MHz writes %r, a fresh object at that frequency %r' % (f0, m.f, [(x, y) for x, y in zip (la, lb) if x != y] [:2], len (lb)))
+    except common.Repo_Crash as e:
+        if 'NotImplementedError' not in e.key:
+            raise
+    finally:
+        m.f = f0
     # ---- frequency, wires, pulses
     mon ['frequency'] = 1
     if abs (r ['f'] - m.f) > 1e-10 * m.f:
